@@ -82,9 +82,9 @@ func runC13(r *core.Run, tier string) {
 		return
 	}
 	defer env.Close()
-	maxInt, maxStr, n := 6, 4, 0
+	maxInt, maxStr, n := 7, 5, 0
 	if tier == "thorough" {
-		maxInt, maxStr, n = 7, 5, 50000
+		maxInt, maxStr, n = 9, 6, 50000
 	}
 	r.Rule("a case is one (function, input) pair: every int slice of length 0..maxint over {0,1,2} and every string slice of length 0..maxstr over {\"\",\"a\",\"b\"} x all valid indices/counts x a family of predicates/projections/folders with call-order recording, compared with an independent index-loop model; non-trivial = input slice non-empty (or a multi-element sort); distinct because inputs are enumerated without repetition")
 	r.Assume("out-of-domain calls (Head/Tail/Last/PopLast of empty, Take n>len, Item out of range, Zip of unequal lengths, negative counts) are not made", "Sort/SortBy are required to be an ascending permutation, not stable")
